@@ -367,6 +367,37 @@ theorem fromFrequencies_ok (f : List Nat) (t : Table) (h : fromFrequencies f = .
       · next hsz => cases h; exact ⟨rfl, hsz, hb.2.2.2⟩
       · cases h
 
+/-- the forest `from_frequencies` builds before it assigns the codes -/
+def rustForest (f : List Nat) : Table :=
+  buildTree ((f.zipIdx.map fun (p : Nat × Nat) => (⟨p.1, p.2⟩ : Freq)) ++ [(⟨1, EOF⟩ : Freq)]).length
+    ((f.zipIdx.map fun (p : Nat × Nat) => (⟨p.1, p.2⟩ : Freq)) ++ [(⟨1, EOF⟩ : Freq)])
+    (Array.replicate NUM_SYMBOLS (65535, 65535))
+
+theorem fromFrequencies_ok_forest (f : List Nat) (t : Table) (h : fromFrequencies f = .ok t) :
+    f.length = 256 ∧ dfs (rustForest f) 4096 [] 0 true = .ok t := by
+  simp only [fromFrequencies] at h
+  split at h
+  · cases h
+  · next hlen =>
+    refine ⟨by omega, ?_⟩
+    revert h
+    generalize hfs0 : List.map _ f.zipIdx = fs0
+    have hfs : fs0 = f.zipIdx.map fun (p : Nat × Nat) => (⟨p.1, p.2⟩ : Freq) := by
+      rw [← hfs0]
+    subst hfs
+    intro h
+    show dfs (rustForest f) 4096 [] 0 true = .ok t
+    unfold rustForest
+    cases hd : dfs _ 4096 [] 0 true with
+    | panic s => rw [hd] at h; cases h
+    | diverge => rw [hd] at h; cases h
+    | ok t' =>
+      rw [hd] at h
+      simp only at h
+      split at h
+      · cases h; rfl
+      · cases h
+
 /-- every table `from_frequencies` returns has 513 entries and well-formed inner nodes -/
 theorem fromFrequencies_inner (f : List Nat) (t : Table) (h : fromFrequencies f = .ok t) :
     t.size = NUM_NODES ∧ ChildLt t := by
